@@ -30,6 +30,7 @@ import GraphiqModel.Proofs.SolverCompleteMain
 import GraphiqModel.Proofs.SolverCompleteFlag
 import GraphiqModel.Proofs.SolverCompleteFinal
 import GraphiqModel.Proofs.SolverCompleteValidator
+import GraphiqModel.Proofs.SolverCompleteResources
 namespace Graphiq.C02
 open Graphiq Graphiq.PRow Graphiq.Tab Graphiq.STab
 
@@ -292,7 +293,7 @@ theorem generator_at_photon_acts_on_emitter (np p : Nat) (t : STab) (hlit : ∀ 
 /-- **sub-goal 3 — every round returns and re-establishes the invariant**; after it photon `p` is disentangled in |0⟩ (column literal) -/
 theorem round_returns (np ne p : Nat) (hp : p < np) (s : Solver.St) (h : LoopInvariant np ne (p + 1) s) :
     ∃ s', Solver.photonRound s (p + 1) = .ok s' ∧ LoopInvariant np ne p s' ∧ s'.t.Lit p := by
-  obtain ⟨s', h1, h2⟩ := Solver.round_ok (fun _ => False) np ne p hp (fun f => f) s h
+  obtain ⟨s', h1, h2, _⟩ := Solver.round_ok (fun _ => False) np ne p hp (fun f => f) s h
   exact ⟨s', h1, h2, h2.lit p (Nat.le_refl _) hp⟩
 
 /-- **the main loop returns** with every photon absorbed -/
@@ -351,6 +352,40 @@ example : solveOk 4 sq4adj 2 2 = true := by decide +kernel
 example : (STab.zero 2).Spn (PRow.Zq (1 + 0)) := spn_gen (STab.zero 2) 1 (by decide)
 example : (match stabRun 1 1 .prob [true] [.gate1 .H ⟨.e, 0⟩, .cnot ⟨.e, 0⟩ ⟨.p, 0⟩, .mcr ⟨.e, 0⟩ ⟨.p, 0⟩ 0] with
     | some rs => (STab.ofTab rs.t).sameGroup (STab.zero 2) | none => false) = true := by decide +kernel
+
+/-! ### Resources of the returned circuit (Li–Economou–Barnes) -/
+
+/-- **resource theorem**: on every stabilizer target without product qubit the solver model returns a circuit with exactly one emitter
+    measurement (`MeasurementCNOTandReset`) per descent `h(p) < h(p-1)` of the target's height function (`Solver.descents`), exactly one
+    emission per photon, and `max h` emitters.  (The test `height_list[j] < height_list[j-1]` of round `j` is evaluated on the working
+    tableau, but the cuts left of the current photon are never touched, so it sees the target's heights.) -/
+theorem measurement_count_stabilizer (hinv : InverseCircuitComplete) (target : STab) (hg : target.Good) (hi : target.LinIndep)
+    (hn : 0 < target.n) (hnp : ∀ p, p < target.n → target.NotProd p) :
+    ∃ s hl, Solver.solve target = .ok s ∧ target.heightFuncList = .ok hl ∧
+      Solver.mcrCount s.circ = Solver.descents hl target.n ∧
+      (∀ p, Solver.emitCount p s.circ = if p < target.n then 1 else 0) ∧ Solver.determineNEmitters target = .ok s.ne := by
+  obtain ⟨s, hl, hs, hh, hc⟩ := Solver.solve_mcr_count hinv target hg hi hn hnp
+  exact ⟨s, hl, hs, hh, hc, (solve_structure target s hs).2.1, (solve_structure target s hs).2.2⟩
+
+/-- the same on graphs (at least one vertex, no isolated vertex) -/
+theorem measurement_count (hinv : InverseCircuitComplete) (np : Nat) (adj : Nat → Nat → Bool) (hnp : 0 < np)
+    (hsym : ∀ i j, adj i j = adj j i) (hirr : ∀ i, adj i i = false) (hiso : ∀ i, i < np → ∃ j, j < np ∧ adj i j = true) :
+    ∃ s hl, Solver.solve (graphSTab np adj) = .ok s ∧ (graphSTab np adj).heightFuncList = .ok hl ∧
+      Solver.mcrCount s.circ = Solver.descents hl np ∧
+      (∀ p, Solver.emitCount p s.circ = if p < np then 1 else 0) ∧ Solver.determineNEmitters (graphSTab np adj) = .ok s.ne :=
+  measurement_count_stabilizer hinv (graphSTab np adj) (Solver.graphSTab_good np adj hsym) (graph_indep np adj) hnp
+    (fun p hp => Solver.graph_notProd np adj hirr p hp (hiso p hp))
+
+/-- the linear cluster 0–1–2 has heights `1, 1, 0`: one descent, and the model's circuit has one measure-and-reset (`solveOk 3 lin3adj 1 1`
+    above); the 4-cycle has heights `1, 2, 1, 0`: two descents, two measurements (`solveOk 4 sq4adj 2 2`) -/
+example : (graphSTab 3 lin3adj).heightFuncList = .ok [1, 1, 0] ∧ Solver.descents [1, 1, 0] 3 = 1 := by
+  constructor
+  · decide +kernel
+  · decide
+example : (graphSTab 4 sq4adj).heightFuncList = .ok [1, 2, 1, 0] ∧ Solver.descents [1, 2, 1, 0] 4 = 2 := by
+  constructor
+  · decide +kernel
+  · decide
 
 /-! ### The excluded targets: the hypotheses of `solver_complete` are sharp (finding D3 as a theorem about the model) -/
 
